@@ -277,7 +277,10 @@ fn mutate(kind: usize, seed: u16, block: &[Bytes], decoded: &Decoded, stale_tx: 
                 .txs
                 .iter()
                 .enumerate()
-                .filter(|(_, (_, tx))| tx.actions().iter().any(|a| matches!(a, Action::RollupDataSubmission(_))))
+                .filter(|(_, (_, tx))| {
+                    !never_takes_effect(tx)
+                        && tx.actions().iter().any(|a| matches!(a, Action::RollupDataSubmission(_)))
+                })
                 .map(|(i, _)| i)
                 .collect();
             if with_data.is_empty() {
@@ -287,11 +290,14 @@ fn mutate(kind: usize, seed: u16, block: &[Bytes], decoded: &Decoded, stale_tx: 
             Some(("dropped-tx-with-rollup-data", out))
         }
         3 => {
-            // the same signed transaction twice: the second cannot execute (nonce)
-            if n_user == 0 {
+            // the same signed transaction twice: the second cannot execute (nonce). Only a
+            // transaction that took effect the first time qualifies (a "failed" one leaves the
+            // nonce where it was and may legitimately be proposed again).
+            let effective: Vec<usize> = (0..n_user).filter(|i| !never_takes_effect(&decoded.txs[*i].1)).collect();
+            if effective.is_empty() {
                 return None;
             }
-            let copy = decoded.txs[pick(n_user)].0.clone();
+            let copy = decoded.txs[effective[pick(effective.len())]].0.clone();
             out.push(copy);
             Some(("duplicated-tx", out))
         }
@@ -354,6 +360,15 @@ fn mutate(kind: usize, seed: u16, block: &[Bytes], decoded: &Decoded, stale_tx: 
 
 const N_MUTATIONS: usize = 9;
 
+/// Transactions carrying an `IbcRelay` action never take effect in generated histories: the only
+/// relay message the generator knows is unappliable by construction (`hist::bad_ibc_relay`). Before
+/// Blackburn such a transaction fails fatally and is not proposed at all; after it, it is included
+/// as "failed": no deposit, no state change, no nonce bump (its data submissions are still part
+/// of the block). The oracles below must not count it as executed.
+fn never_takes_effect(tx: &astria_core::protocol::transaction::v1::Transaction) -> bool {
+    tx.actions().iter().any(|a| matches!(a, Action::Ibc(_)))
+}
+
 /// The rollup data a block must publish, computed from its transactions alone: per rollup the
 /// sequenced payloads in block order, then the deposits in execution order.
 fn expected_rollup_data(
@@ -365,8 +380,15 @@ fn expected_rollup_data(
     let mut deposits: BTreeMap<RollupId, Vec<RollupData>> = BTreeMap::new();
     let mut view = view.clone();
     for (bytes, tx) in txs {
+        // A transaction that is included as "failed" is still one of the block's transactions:
+        // its data submissions are published in block order, but it made no deposit and created
+        // no bridge account.
+        let failed = never_takes_effect(tx);
         let tx_id = astria_core::primitive::v1::TransactionId::new(sha2::Sha256::digest(bytes).into());
         for (index, action) in tx.actions().iter().enumerate() {
+            if failed && !matches!(action, Action::RollupDataSubmission(_)) {
+                continue;
+            }
             match action {
                 Action::RollupDataSubmission(a) => {
                     sequenced
@@ -824,9 +846,7 @@ async fn run_case(case: &Case, mode: Mode, ctx: &mut Ctx) -> CaseResult {
                     // whose construction-time authority check only passes after an earlier
                     // transaction of the same block (which PrepareProposal executed first) makes
                     // other validators reject the proposer's block.
-                    let signature = if error.contains("failed to construct checked transaction")
-                        && error.contains("not authorized")
-                    {
+                    let signature = if l1::is_block_start_construction_shape(error, &block, decoded.injected) {
                         "honest-proposal-rejected:tx-constructed-against-block-start-state"
                     } else {
                         "honest-proposal-rejected"
@@ -883,7 +903,7 @@ async fn run_case(case: &Case, mode: Mode, ctx: &mut Ctx) -> CaseResult {
         for node in [&mut proposer, &mut validator, &mut syncer] {
             node.commit().await.map_err(|e| vcommon::Failure::new("commit-failed", e))?;
         }
-        if let Some((bytes, _)) = decoded.txs.first() {
+        if let Some((bytes, _)) = decoded.txs.iter().find(|(_, tx)| !never_takes_effect(tx)) {
             stale = Some(bytes.clone());
         }
         if mode == Mode::C07 {
@@ -944,7 +964,7 @@ pub fn run(args: &[String], mode: Mode) -> ! {
         Prop {
             name,
             rule,
-            cases_quick: 240,
+            cases_quick: 480,
             cases_thorough: 4000,
             shards: 12,
             min_nontrivial: floor,
